@@ -111,6 +111,8 @@ func genEDI(t *tape.Tape, o GenOpts) *World {
 	fd["segment_declarations"] = []interface{}{isa}
 	decls, js, ext := GenDecls(t, m, declOptsOf(o))
 	addPoisonable(decls, m.IntField)
+	addJSPoisonable(t, w, decls, o, fn)
+	addAncestorJS(w, decls, o)
 	if x := flatTarget(sh); x != "" {
 		decls["FINAL_OUTPUT"].(D)["xpath"] = x
 	}
@@ -128,10 +130,11 @@ func genEDI(t *tape.Tape, o GenOpts) *World {
 			if i == 0 && useComp {
 				e = e + comp + "c2"
 			}
-			if longSeg && i == len(vals)-1 {
-				e = e + strings.Repeat("L", 150)
-			}
 			parts = append(parts, e)
+		}
+		if longSeg {
+			// an extra, undeclared trailing element makes the segment outgrow the scanner buffer
+			parts = append(parts, strings.Repeat("L", 150))
 		}
 		s := strings.Join(parts, elemDelim)
 		if crBeforeLF {
@@ -152,7 +155,7 @@ func genEDI(t *tape.Tape, o GenOpts) *World {
 	drawRecs(t, w, sh, o)
 	_ = ignoreCRLF
 	w.Schema = BuildSchema("edi", enc, fd, decls)
-	w.UsesJS, w.Ext = js, ext
+	w.UsesJS, w.Ext = js || w.UsesJS, ext
 	w.Name = fmt.Sprintf("gen:edi(fields=%d,items=%d,recs=%d,seg=%q,elem=%q,rel=%q,comp=%q)", sh.NFields, sh.NItemFields, len(w.LRecs), segDelim, elemDelim, release, comp)
 	finish(w, enc, bom)
 	return w
